@@ -33,7 +33,7 @@ def run(tier, corrupt=0):
     def one(i):
         path = os.path.join(vlib.WORK, "c04_trace_%02d.ndjson" % i)
         vlib.ohv(["record", "total", "--seed", c.seed, "--cases", cases, "--extremes", extremes, "--every", every, "--noise", noise,
-                  "--random", rnd, "--light", light, "--part", i, "--parts", procs], stdout_path=path, timeout=14400)
+                  "--random", rnd, "--light", light, "--extremes-every", 3 if tier == "quick" else 1, "--part", i, "--parts", procs], stdout_path=path, timeout=14400)
         return path
 
     with cf.ThreadPoolExecutor(max_workers=procs) as ex:
